@@ -6,6 +6,7 @@ import (
 	"crypto"
 	"crypto/rand"
 	"crypto/sha256"
+	_ "crypto/sha512"
 	"crypto/x509"
 	"crypto/x509/pkix"
 	"encoding/json"
@@ -94,6 +95,7 @@ func c19Subjects() []c19Subject {
 	}
 	imgOps := []c19Op{
 		{"Hash", func(o any) string { return sum(o.(*authenticode.PECOFFBinary).Hash(crypto.SHA256)) }},
+		{"Hash(SHA-512)", func(o any) string { return sum(o.(*authenticode.PECOFFBinary).Hash(crypto.SHA512)) }},
 		{"Bytes", func(o any) string { return sum(o.(*authenticode.PECOFFBinary).Bytes()) }},
 		{"Open+ReadAll", func(o any) string {
 			b, err := io.ReadAll(o.(*authenticode.PECOFFBinary).Open())
@@ -114,6 +116,10 @@ func c19Subjects() []c19Subject {
 		}},
 		{"Verify(c1)", func(o any) string {
 			ok, err := o.(*authenticode.PECOFFBinary).Verify(keys.C(1))
+			return fmt.Sprint(ok, err)
+		}},
+		{"Verify(c2)", func(o any) string {
+			ok, err := o.(*authenticode.PECOFFBinary).Verify(keys.C(2))
 			return fmt.Sprint(ok, err)
 		}},
 		{"Verify(c3)", func(o any) string {
@@ -333,6 +339,8 @@ type c19Thread struct {
 	resume  chan struct{}
 	results []string
 	done    bool
+	// cond: the thread is parked in a lock / Once / WaitGroup of the sync shim until cond() holds
+	cond func() bool
 }
 
 type c19Point struct {
@@ -348,6 +356,7 @@ type c19Exec struct {
 	accesses int
 	writes   []string // write-kind accesses to shared objects
 	blocked  bool
+	deadlock string // every unfinished thread is parked on a condition that does not hold
 	panics   []string
 	// diverged: replaying the recorded prefix met a scheduling point with fewer enabled threads than
 	// recorded: the code under test does not issue the same sequence of shared accesses when it is
@@ -387,6 +396,14 @@ func c19RunOnce(sub *c19Subject, plan [][]int, prefix []int) *c19Exec {
 		<-t.resume
 		sched.Cur = t.id
 	}
+	sched.Wait = func(cond func() bool, what string) {
+		t := byID(sched.Cur)
+		t.cond = cond
+		events <- c19Event{thread: t.id}
+		<-t.resume
+		t.cond = nil
+		sched.Cur = t.id
+	}
 	for _, t := range threads {
 		t := t
 		go func() {
@@ -409,18 +426,28 @@ func c19RunOnce(sub *c19Subject, plan [][]int, prefix []int) *c19Exec {
 	defer watchdog.Stop()
 	for {
 		var en []int
-		if running != 0 && !byID(running).done {
+		runnable := func(t *c19Thread) bool { return !t.done && (t.cond == nil || t.cond()) }
+		if running != 0 && runnable(byID(running)) {
 			en = append(en, running)
 		}
+		unfinished := 0
 		for _, t := range threads {
-			if !t.done && t.id != running {
+			if !t.done {
+				unfinished++
+			}
+			if runnable(t) && t.id != running {
 				en = append(en, t.id)
 			}
 		}
 		if len(en) == 0 {
+			if unfinished > 0 {
+				x.deadlock = fmt.Sprintf("%d unfinished threads all wait on locks / Once / WaitGroup", unfinished)
+				sched.Active = false
+				return x
+			}
 			break
 		}
-		pt := c19Point{enabled: en, runningStillEnabled: running != 0 && !byID(running).done}
+		pt := c19Point{enabled: en, runningStillEnabled: running != 0 && runnable(byID(running))}
 		ch := 0
 		if len(x.points) < len(prefix) {
 			ch = prefix[len(x.points)]
@@ -451,6 +478,7 @@ func c19RunOnce(sub *c19Subject, plan [][]int, prefix []int) *c19Exec {
 	}
 	sched.Active = false
 	sched.Yield = nil
+	sched.Wait = nil
 	sched.Record = nil
 	sched.Cur = 0
 	for _, t := range threads {
@@ -540,6 +568,11 @@ func (e *c19Explorer) check(x *c19Exec) {
 		e.capped = true
 		return
 	}
+	if x.deadlock != "" {
+		c.Outcome("deadlock")
+		c.Violation("C19 concurrent calls deadlock: "+x.deadlock, map[string]any{"harness": e.planName(), "schedule": x.choices})
+		return
+	}
 	key := fmt.Sprint(x.results)
 	e.outcomes[key] = true
 	e.lastSchedule = x.choices
@@ -614,6 +647,41 @@ func c19MaxExecs(tier string) int {
 	return 20000
 }
 
+// c19Mutators: modifying operations by the kind of object (deterministic: memoised signatures).
+func c19Mutators(o any) []c19Op {
+	switch o.(type) {
+	case *authenticode.PECOFFBinary:
+		return []c19Op{
+			{"AppendSignature(a signature by k3 made on a copy)", func(o any) string {
+				p := o.(*authenticode.PECOFFBinary)
+				cp, err := authenticode.Parse(bytes.NewReader(p.Bytes()))
+				if err != nil {
+					return "copy: " + err.Error()
+				}
+				sig, err := cp.Sign(keys.K(3), keys.C(3))
+				if err != nil {
+					return "sign: " + err.Error()
+				}
+				return fmt.Sprint(p.AppendSignature(sig))
+			}},
+			{"Sign(k3)", func(o any) string {
+				_, err := o.(*authenticode.PECOFFBinary).Sign(keys.K(3), keys.C(3))
+				return fmt.Sprint(err)
+			}},
+		}
+	case *signature.SignatureDatabase:
+		return []c19Op{
+			{"Append(SHA256, a new hash)", func(o any) string {
+				return fmt.Sprint(o.(*signature.SignatureDatabase).Append(signature.CERT_SHA256_GUID, unwire(ownerB), fill(32, 0x6d)))
+			}},
+			{"Remove(SHA256, the first hash)", func(o any) string {
+				return fmt.Sprint(o.(*signature.SignatureDatabase).Remove(signature.CERT_SHA256_GUID, unwire(ownerA), fill(32, 1)))
+			}},
+		}
+	}
+	return nil
+}
+
 func c19Units(tier string) []string {
 	var u []string
 	for si, s := range c19Subjects() {
@@ -658,6 +726,7 @@ func c19Run(c *hx.Ctx, tier, unit string) {
 				c.Count("traces", 1)
 				o := sub.build()
 				before := sub.dump(o)
+				visibleBefore := deepdump.DumpVisible(o)
 				for k, oi := range seq {
 					var r string
 					pn := hx.Try(func() { r = sub.ops[oi].run(o) })
@@ -680,9 +749,32 @@ func c19Run(c *hx.Ctx, tier, unit string) {
 						return
 					}
 					if after := sub.dump(o); after != before {
-						c.Outcome("state-changed")
-						c.Violation(fmt.Sprintf("C19 sequential %s: %s modifies the object", sub.name, sub.ops[oi].name), map[string]any{"sequence": names(), "state_before": before, "state_after": after})
-						return
+						// Private state changed. That alone is not a modification of the object in the sense of the
+						// statement if it is a one-time fill (a memo, a lazily built index): nothing a caller can
+						// reach changed, repeating the call changes nothing further, and every later result is
+						// still compared with the fresh-object result below and in the longer sequences.
+						if vis := deepdump.DumpVisible(o); vis != visibleBefore {
+							c.Outcome("state-changed")
+							c.Violation(fmt.Sprintf("C19 sequential %s: %s modifies the object", sub.name, sub.ops[oi].name), map[string]any{"sequence": names(), "what": "exported fields", "state_before": visibleBefore, "state_after": vis})
+							return
+						}
+						o2 := sub.build()
+						var again1, again2 string
+						pn2 := hx.Try(func() {
+							for _, x := range seq[:k+1] {
+								sub.ops[x].run(o2)
+							}
+							again1 = sub.dump(o2)
+							sub.ops[oi].run(o2)
+							again2 = sub.dump(o2)
+						})
+						if pn2 != nil || again1 != again2 {
+							c.Outcome("state-changed")
+							c.Violation(fmt.Sprintf("C19 sequential %s: %s modifies the object", sub.name, sub.ops[oi].name), map[string]any{"sequence": names(), "what": "private state changes again when the call is repeated", "state_before": before, "state_after": after})
+							return
+						}
+						c.Count("one_time_private_fills(allowed)", 1)
+						before = after
 					}
 				}
 				c.Outcome("sequence-ok")
@@ -733,6 +825,53 @@ func c19Run(c *hx.Ctx, tier, unit string) {
 				}
 			}
 			c.Outcome("repetition-ok")
+		}
+		// read-only calls leave no trace in what the object does next: after every sequence of up to two
+		// read-only calls, a modifying call (append a signature, sign, append / remove an entry) and
+		// then every read-only call give what they give on an object that was never looked at
+		if muts := c19Mutators(sub.build()); len(muts) > 0 {
+			after := func(o any, m c19Op) []string {
+				out := []string{m.run(o)}
+				for _, op := range sub.ops {
+					out = append(out, op.run(o))
+				}
+				return out
+			}
+			for _, m := range muts {
+				var want []string
+				if pn := hx.Try(func() { want = after(sub.build(), m) }); pn != nil {
+					c.Note("%s: %s on a fresh object panics: %s", sub.name, m.name, pn.String())
+					continue
+				}
+				var seqs [][]int
+				for a := range sub.ops {
+					seqs = append(seqs, []int{a})
+					for b := range sub.ops {
+						seqs = append(seqs, []int{a, b})
+					}
+				}
+				for _, seq := range seqs {
+					c.Next()
+					c.Count("traces", 1)
+					o := sub.build()
+					var got []string
+					var names []string
+					pn := hx.Try(func() {
+						for _, oi := range seq {
+							sub.ops[oi].run(o)
+							names = append(names, sub.ops[oi].name)
+						}
+						got = after(o, m)
+					})
+					if pn != nil || fmt.Sprint(got) != fmt.Sprint(want) {
+						c.Outcome("result-differs")
+						c.Violation(fmt.Sprintf("C19 sequential %s: read-only calls change what a later %s and the calls after it do", sub.name, m.name), map[string]any{"read_only_calls_before": names, "results": got, "results_on_an_object_never_looked_at": want, "panic": fmt.Sprint(pn)})
+						continue
+					}
+					c.Outcome("sequence-ok")
+					c.Nontrivial([]byte(sub.name), []byte(m.name), []byte(fmt.Sprint(seq)))
+				}
+			}
 		}
 	case "sched2x1", "sched2x2", "sched3x1":
 		first, _ := strconv.Atoi(parts[2])
